@@ -15,6 +15,9 @@ import (
 // full product stay on the base alphabets; the one-entry products and the audit scenarios use the extensions).
 var base struct{ source, dists, opts, body, maint, date int }
 
+// ext holds the sizes after the byte-class extension and before the audit extension.
+var ext struct{ dists, opts, body, maint int }
+
 // auditDocs are additional whole changelogs (entry counts around a new integer constant).
 var auditDocs []Doc
 
@@ -37,6 +40,12 @@ func tokenIndex(list []string, t string) int {
 
 func applyAudit() {
 	base.source, base.dists, base.opts, base.body, base.maint, base.date = len(altSource), len(altDists), len(altOpts), len(altBody), len(altMaint), len(altDate)
+	// the byte-class alternatives (bytes.go) are always present, after the core ones
+	altBody = append(altBody, extBody...)
+	altMaint = append(altMaint, extMaint...)
+	altOpts = append(altOpts, extOpts...)
+	altDists = append(altDists, extDists...)
+	ext.dists, ext.opts, ext.body, ext.maint = len(altDists), len(altOpts), len(altBody), len(altMaint)
 	addDate := func(d Date) {
 		for _, x := range altDate {
 			if x == d {
@@ -136,6 +145,6 @@ func applyAudit() {
 		auditNote["strings_used"] = used
 		auditNote["ints_used"] = ints
 		auditNote["added"] = fmt.Sprintf("sources +%d, distributions +%d, options +%d, bodies +%d, maintainers +%d, dates +%d, whole changelogs +%d",
-			len(altSource)-base.source, len(altDists)-base.dists, len(altOpts)-base.opts, len(altBody)-base.body, len(altMaint)-base.maint, len(altDate)-base.date, len(auditDocs))
+			len(altSource)-base.source, len(altDists)-ext.dists, len(altOpts)-ext.opts, len(altBody)-ext.body, len(altMaint)-ext.maint, len(altDate)-base.date, len(auditDocs))
 	}
 }
